@@ -170,6 +170,7 @@ class Ctx:
             boot.cancel_all_timers()
             boot.R.rightNow = boot.EPOCH
             boot.set_thread_mode(False)
+            boot.hold_threads(False)
         boot.reseed(0)
         if isinstance(case, dict) and case.get("hsalt"):
             boot.set_hash_salt(case["hsalt"])      # permutes the iteration order of sets of shares/servers/observers inside the code under test
